@@ -7,6 +7,7 @@ from .containers import _fresh_elem
 from .exprs import seq_elements
 
 PSTATUS = frozenset(['A', 'F', 'V'])   # parameter word absent / flag (no value) / valued
+PSTRARG = frozenset(['A', 'F'])        # the trailing string-argument item: absent / present
 
 
 def _elements(I, st, it, frame, s):
@@ -172,6 +173,10 @@ def _alphabet_compute(body):
 def param_value(I, src, letter):
     """letter may carry an occurrence suffix ('X#2' = second X word of the command)"""
     key = ('param', vkey(src), letter)
+    if letter == '':
+        # the trailing ('', <string argument>) item parameterItems yields when the command has a value-less word or text
+        # that is not a word: present ('F') or absent, never a number
+        return key, SStr('strarg(%s)' % (getattr(src, 'tag', None) or repr(vkey(src))), getattr(src, 'deps', ()), nonempty=True)
     return key, Choice([({key: frozenset(['F'])}, NONE),
                         ({key: frozenset(['V'])}, I.symbol('p:%s' % letter, kind='param', letter=letter.split('#')[0]))])
 
@@ -188,6 +193,7 @@ def param_loop(I, st, env, s, it, frame):
         letters.append(L)
         if L in getattr(I, 'param_dups', ()):
             letters.append(L + '#2')        # a second occurrence of the same word, later in the command
+    letters.append('')          # the string-argument item comes last
     cur = [(st, env, None)]
     for L in letters:
         nxt = []
@@ -202,6 +208,8 @@ def param_loop(I, st, env, s, it, frame):
 
 def _param_iteration(I, st, env, s, it, L, frame):
     key, val = param_value(I, it.src, L)
+    if L == '' and key not in st.dom:
+        st.dom[key] = PSTRARG
     cur = st.dom.get(key, PSTATUS)
     present = cur & frozenset(['F', 'V'])
     if not present:
@@ -348,8 +356,10 @@ def _param_comprehension(I, st, env, e, g, it, frame):
     from .values import Opt
     elems = []
     cur_state = st
-    for L in _module_letters(I, frame.mod) + ['?']:
+    for L in _module_letters(I, frame.mod) + ['?', '']:
         key, val = param_value(I, it.src, L)
+        if L == '' and key not in cur_state.dom:
+            cur_state.dom[key] = PSTRARG
         status = cur_state.dom.get(key, PSTATUS)
         present = status & frozenset(['F', 'V'])
         if not present:
